@@ -7,7 +7,9 @@ id="$1"; tier="${2:-${VERIF_TIER:-quick}}"
 [ $# -ge 1 ] && shift; [ $# -ge 1 ] && shift
 mkdir -p bin
 out="bin/check.$$"
-if ! go build -tags verif -o "$out" ./cmd/check 2>bin/build.$$.log; then
+tags=verif
+case "$id" in C05|C10) tags="verif hb" ;; esac   # the hb variant links libharfbuzz through cgo
+if ! go build -tags "$tags" -o "$out" ./cmd/check 2>bin/build.$$.log; then
   cat bin/build.$$.log; rm -f bin/build.$$.log "$out"
   echo "BUILD FAILED for $id (the tree under /repo does not compile with the harness)"; exit 2
 fi
